@@ -13,7 +13,9 @@ mod model;
 mod ops;
 mod panics;
 mod props_conc;
+mod props_eval;
 mod props_seq;
+mod props_unit;
 mod runner;
 
 use std::path::PathBuf;
@@ -114,7 +116,15 @@ pub fn geometry_features() -> &'static str {
 }
 
 fn dispatch(prop: &str, ctx: &Ctx) -> Finish {
-    if let Some(spec) = props_seq::spec_for(prop) {
+    if prop == "C19" {
+        props_eval::run_c19(ctx)
+    } else if prop == "C20" {
+        props_eval::run_c20(ctx, replay_bin(), tmp_dir())
+    } else if prop == "C23" {
+        props_unit::run_c23(ctx)
+    } else if prop == "C16" {
+        props_unit::run_c16(ctx)
+    } else if let Some(spec) = props_seq::spec_for(prop) {
         props_seq::run_spec(&spec, ctx)
     } else if let Some(spec) = props_conc::spec_for(prop) {
         props_conc::run_spec(&spec, ctx)
@@ -134,6 +144,11 @@ fn replay_doc(prop: &str, doc: &Value) -> Option<String> {
             let case: e2::ConcCase = serde_json::from_value(doc["case"].clone()).unwrap();
             props_conc::replay(prop, &case)
         }
+        "classcfg" => props_eval::replay_class(&serde_json::from_value(doc["case"].clone()).unwrap()),
+        "trace" => props_eval::replay_trace(&serde_json::from_value(doc["case"].clone()).unwrap(), replay_bin(), tmp_dir()),
+        "row" => props_unit::replay_row(&serde_json::from_value(doc["case"].clone()).unwrap()),
+        "sortedbuf" => props_unit::replay_buf(&serde_json::from_value(doc["case"].clone()).unwrap()),
+        "search" => props_unit::replay_search(&serde_json::from_value(doc["case"].clone()).unwrap()),
         e => panic!("unknown engine {e}"),
     }
 }
@@ -171,6 +186,15 @@ fn run_regress(ctx: &Ctx, dir: Option<&str>) -> Option<Finish> {
 }
 
 pub static QUIET: std::sync::atomic::AtomicBool = std::sync::atomic::AtomicBool::new(false);
+
+fn replay_bin() -> Option<String> {
+    let args: Vec<String> = std::env::args().collect();
+    arg_value(&args, "--replay-bin")
+}
+fn tmp_dir() -> PathBuf {
+    let args: Vec<String> = std::env::args().collect();
+    arg_value(&args, "--tmp-dir").map(PathBuf::from).unwrap_or_else(|| "target/tmp".into())
+}
 
 fn arg_value(args: &[String], name: &str) -> Option<String> {
     args.iter()
